@@ -500,18 +500,12 @@ def main_check(prop, module, argv):
     proof_broken = []
     build = coq_build() if not args.no_build else BuildResult(True, '')
     if not build.ok:
-        # which broken statements matter for this property?
-        cone = set(deps_of(prop))
-        for (f, line, name, msg) in build.broken:
-            rel = f[len('coq/'):] if f.startswith('coq/') else f
-            if rel in cone or rel == 'coq' or not cone:
+        # the whole-project build broke somewhere (possibly in another property's file, or a compiler was killed):
+        # what matters for this property is whether ITS dependency cone builds
+        b2 = coq_build(targets=[f[:-2] + '.vo' for f in deps_of(prop)])
+        if not b2.ok:
+            for (f, line, name, msg) in b2.broken:
                 proof_broken.append({'file': f, 'line': line, 'statement': name, 'message': msg})
-        if not proof_broken:
-            # the build broke elsewhere: build only this property's cone
-            b2 = coq_build(targets=[f[:-2] + '.vo' for f in deps_of(prop)])
-            if not b2.ok:
-                for (f, line, name, msg) in b2.broken:
-                    proof_broken.append({'file': f, 'line': line, 'statement': name, 'message': msg})
     assumptions = {}
     if not proof_broken:
         ok, assumptions, raw = print_assumptions(prop)
